@@ -203,11 +203,13 @@ theorem procLookup_coherent (s : St) (c : Ctx) (args : Bytes) (hc : AcCoherent s
       · exact hc
       · split
         · exact hc
-        · split
-          · exact hc
+        · have keep : ∀ (t : St) (n : Node) (k : Attrs → Outcome), AcCoherent t → AcCoherent (lookupDirAttr t c.now n k).1 :=
+            fun t n k ht => getAttrOr_coherent t c.now n n.attrs ht
+          split
+          · exact keep _ _ _ hc
           · split
-            · rename_i h; exact lookupPath_coherent' h hc
-            · rename_i h; exact allocate_coherent _ _ (lookupPath_coherent' h hc)
+            · rename_i h; exact keep _ _ _ (lookupPath_coherent' h hc)
+            · rename_i h; exact keep _ _ _ (allocate_coherent _ _ (lookupPath_coherent' h hc))
 
 theorem procAccess_coherent (s : St) (c : Ctx) (args : Bytes) (hc : AcCoherent s) : AcCoherent (procAccess s c args).1 := by
   unfold procAccess
